@@ -1,5 +1,5 @@
 import VlsModel.Drv.Common
-/- Line-protocol models serving property C11 (none yet). -/
+/- Property C11 uses the `nodereq` model registered in `Drv/C10.lean`. -/
 namespace VlsModel.Drv.C11
 open VlsModel.Drv
 
